@@ -10,6 +10,7 @@ package weshnet
 // stays "to request".  Verdict: MonContactPending.tla.
 
 import (
+	"bufio"
 	"context"
 	"crypto/rand"
 	"net"
@@ -34,6 +35,21 @@ type vfpStream struct {
 
 func (s vfpStream) Read(p []byte) (int, error)  { return s.c.Read(p) }
 func (s vfpStream) Write(p []byte) (int, error) { return s.c.Write(p) }
+
+// vfpCoalesce buffers what the peer writes until it reads again (or flushes): the last handshake frame and
+// the contact frame that follows it then reach the node in ONE chunk, as a muxer or TCP may deliver them
+type vfpCoalesce struct {
+	c net.Conn
+	w *bufio.Writer
+}
+
+func (x *vfpCoalesce) Read(p []byte) (int, error) {
+	if err := x.w.Flush(); err != nil {
+		return 0, err
+	}
+	return x.c.Read(p)
+}
+func (x *vfpCoalesce) Write(p []byte) (int, error) { return x.w.Write(p) }
 
 func vfpKinds(ms *MetadataStore, from int) []string {
 	out := []string{}
@@ -81,6 +97,7 @@ func TestVerifContactPending(t *testing.T) {
 		announce, _ := sc.Cfg["announce"].(string) // "victim" | "self"
 		withSeed, _ := vfBool(sc.Cfg, "seed")
 		withMeta, _ := vfBool(sc.Cfg, "meta")
+		coalesce, _ := vfBool(sc.Cfg, "coalesce")
 		out := []map[string]any{{"ev": "reset", "id": sc.ID}}
 		_, kPub, err := p2pcrypto.GenerateEd25519Key(rand.Reader)
 		if err != nil {
@@ -105,6 +122,12 @@ func TestVerifContactPending(t *testing.T) {
 		go func() { done <- mgr.handleIncomingRequest(ctx, vfpStream{c: b}) }()
 		reader := protoio.NewDelimitedReader(a, 2048)
 		writer := protoio.NewDelimitedWriter(a)
+		var co *vfpCoalesce
+		if coalesce {
+			co = &vfpCoalesce{c: a, w: bufio.NewWriterSize(a, 1<<16)}
+			reader = protoio.NewDelimitedReader(co, 2048)
+			writer = protoio.NewDelimitedWriter(co)
+		}
 		hctx, hcancel := context.WithTimeout(ctx, 20*time.Second)
 		herr := handshake.RequestUsingReaderWriter(hctx, zap.NewNop(), reader, writer, eSK, bPub)
 		hcancel()
@@ -122,18 +145,29 @@ func TestVerifContactPending(t *testing.T) {
 		if herr == nil {
 			_ = a.SetWriteDeadline(time.Now().Add(10 * time.Second))
 			werr = writer.WriteMsg(contact)
+			if co != nil && werr == nil {
+				werr = co.w.Flush()
+			}
 		}
 		var rerr error
+		hung := false
 		select {
 		case rerr = <-done:
 		case <-time.After(20 * time.Second):
-			vfInfra("handleIncomingRequest does not return")
+			// everything the peer had to send has been delivered: a handler still waiting is an observation
+			hung = true
+			_ = a.Close()
+			select {
+			case rerr = <-done:
+			case <-time.After(20 * time.Second):
+				vfInfra("handleIncomingRequest does not return even after the stream was closed")
+			}
 		}
 		_ = a.Close()
 		_ = b.Close()
 		after := settle()
-		out = append(out, map[string]any{"ev": "pend", "announce": announce, "seed": withSeed, "meta": withMeta,
-			"handshake": herr == nil, "wrote": werr == nil, "err": rerr != nil, "grew": after - before, "kinds": vfpKinds(ms, before),
+		out = append(out, map[string]any{"ev": "pend", "announce": announce, "seed": withSeed, "meta": withMeta, "coalesce": coalesce,
+			"handshake": herr == nil, "wrote": werr == nil, "err": rerr != nil, "hung": hung, "grew": after - before, "kinds": vfpKinds(ms, before),
 			"victim_before": stBefore, "victim_after": ms.getContactStatus(kPub).String(), "peer_after": ms.getContactStatus(ePub).String()})
 		tr.EmitBlock(out)
 	}
